@@ -1,34 +1,68 @@
 ---------------------------- MODULE MembersTrace ----------------------------
 (* Binding B for C37: executions recorded from the real membersPool are       *)
-(* validated against Members.tla. One event per call; the table is sequential *)
-(* in the driver, so every step is deterministic: the spec action updates the *)
-(* abstract state from the event's arguments and every logged reply is        *)
-(* compared with the spec's answer; a mismatch is printed with its class      *)
-(* (the driver turns it into a verdict) and validation goes on.               *)
+(* validated against Members.tla.                                             *)
+(*                                                                            *)
+(* 1. Sequential recordings (one goroutine; events Reset/Join/Leave/Empty/Obs):*)
+(*    every step is deterministic: the spec action updates the abstract state *)
+(*    from the event's arguments and every logged reply is compared with the  *)
+(*    spec's answer; a mismatch is printed with its class (the driver turns   *)
+(*    it into a verdict) and validation goes on.                              *)
+(*                                                                            *)
+(* 2. Concurrent histories (2-4 goroutines on a fresh table; many short       *)
+(*    histories in one file), searched for a linearization over the           *)
+(*    concurrent layer of Members.tla:                                        *)
+(*      {"a":"HReset","i":12,"n":9, ...}  i = history number, n = its events  *)
+(*      {"a":"Call","g":2,"op":"Leave","addr":"a1","node":"none",              *)
+(*                  "r":{"b":1,"n":"none","l":0,"o":0}}                        *)
+(*           logged (global order) before the real call starts; r = what the  *)
+(*           call answered, attached afterwards                               *)
+(*      {"a":"Ret","g":2}      logged after the real call returned            *)
+(*      {"a":"Final", ...}     after all goroutines finished: every read of   *)
+(*                             the table (same fields as Obs)                 *)
+(*      {"a":"End"}            last line of the file                          *)
+(*    TLin(g) is the internal step of Members!Lin between Call and Ret: the   *)
+(*    sequential table must give the answer the real call gave; Final must be *)
+(*    what the sequential table shows after the chosen order. A history is    *)
+(*    explained iff some path consumes all of its events; GiveUp lets the     *)
+(*    search go on with the next history; the histories without a             *)
+(*    linearization are printed at the end (NOTLIN) with the first line no    *)
+(*    order explains (HWT).                                                   *)
+(*    ReadStrict = FALSE leaves the answers of the reads that look at the     *)
+(*    per-node lists or at the length while other calls are in progress       *)
+(*    unconstrained (the statement constrains what the lists contain, a       *)
+(*    re-join under another node moves the address from one list to the       *)
+(*    other in two steps); reads of the address table (Exists, Get), the      *)
+(*    answers of Join and Leave, and the final observation are always         *)
+(*    constrained.                                                            *)
 EXTENDS Members, Json
 
+CONSTANTS ReadStrict
+
 Trace == ndJsonDeserialize("trace.ndjson")
-VARIABLE l
-tvars == <<present, l>>
+VARIABLES l,       \* next trace line
+          h0,      \* line of the HReset event of the current concurrent history (0: none)
+          bad      \* the search has given the current history up
+tvars == <<present, pend, l, h0, bad>>
 Ev == Trace[l]
 
 Expect(class, got, want) == IF got = want THEN TRUE
                             ELSE PrintT(<<"MISMATCH", class, l, got, want>>)
 
-B2N(b) == IF b THEN 1 ELSE 0
 Consume == l <= Len(Trace) /\ l' = l + 1
+Seq == UNCHANGED <<pend, h0, bad>>
 
-TReset == Consume /\ Ev.a = "Reset" /\ present' = [a \in Addr |-> None]
-TJoin  == Consume /\ Ev.a = "Join" /\ Join(Ev.addr, Ev.node)
+(* ------------------------------ 1. sequential ------------------------------ *)
+TReset == Consume /\ Ev.a = "Reset" /\ present' = [a \in Addr |-> None] /\ Seq
+TJoin  == Consume /\ Ev.a = "Join" /\ Join(Ev.addr, Ev.node) /\ Seq
                   /\ Expect("Join-added", B2N(Ev.added), B2N(Added(Ev.addr)))
-TLeave == Consume /\ Ev.a = "Leave" /\ Leave(Ev.addr)
+TLeave == Consume /\ Ev.a = "Leave" /\ Leave(Ev.addr) /\ Seq
                   /\ Expect("Leave-removed", B2N(Ev.removed), B2N(Removed(Ev.addr)))
-TEmpty == Consume /\ Ev.a = "Empty" /\ Empty
+TEmpty == Consume /\ Ev.a = "Empty" /\ Empty /\ Seq
 (* observation of every read after a call: state unchanged *)
 TObs ==
   /\ Consume
   /\ Ev.a = "Obs"
-  /\ UNCHANGED present
+  /\ UNCHANGED present /\ Seq
   /\ Expect("Len", Ev.len, NLen)
   /\ \A x \in Addr :
         /\ Expect("Exists", B2N(Ev.exists[x]), B2N(Exists(x)))
@@ -43,12 +77,80 @@ TObs ==
   /\ Expect("Traverse", {Ev.trav[i] : i \in 1..Len(Ev.trav)}, {z \in Addr : present[z] # None})
   /\ Expect("Traverse-dup", Len(Ev.trav), NLen)
 
-TraceInit == Init /\ l = 1
-TraceNext == TReset \/ TJoin \/ TLeave \/ TEmpty \/ TObs
+(* ------------------------------ 2. concurrent ------------------------------ *)
+(* registers: 2 = histories seen, 3 = histories for which a linearization was found, *)
+(* 100+i = furthest line of history i reached without giving up                      *)
+Note(reg, i) == TLCSet(reg, TLCGet(reg) \cup {i})
+Fresh == /\ present' = [a \in Addr |-> None]
+         /\ pend' = [g \in Procs |-> Idle]
+
+THReset == /\ Consume /\ Ev.a \in {"HReset", "End"}
+           /\ IF h0 # 0 /\ ~bad THEN Note(3, Trace[h0].i) ELSE TRUE
+           /\ IF Ev.a = "HReset" THEN Note(2, Ev.i) ELSE TRUE
+           /\ Fresh /\ h0' = l /\ bad' = FALSE
+
+CallOf(e) == [op |-> e.op, addr |-> e.addr, node |-> e.node]
+Free(c) == ~ReadStrict /\ c.op \in {"Len", "MembersLen", "Others"}
+
+TCall == /\ Consume /\ Ev.a = "Call"
+         /\ pend[Ev.g] = Idle
+         /\ pend' = [pend EXCEPT ![Ev.g] = [st |-> "called", c |-> CallOf(Ev), want |-> Ev.r]]
+         /\ UNCHANGED <<present, h0, bad>>
+
+(* Members!Lin(g) with the guard that the answer of the sequential table is the logged one *)
+TLin(g) == /\ pend[g].st = "called"
+           /\ Free(pend[g].c) \/ Answer(pend[g].c) = pend[g].want
+           /\ Effect(pend[g].c)
+           /\ pend' = [pend EXCEPT ![g] = [st |-> "done", c |-> pend[g].c, r |-> pend[g].want]]
+           /\ UNCHANGED <<l, h0, bad>>
+
+TRet == /\ Consume /\ Ev.a = "Ret"
+        /\ pend[Ev.g].st = "done"
+        /\ pend' = [pend EXCEPT ![Ev.g] = Idle]
+        /\ UNCHANGED <<present, h0, bad>>
+
+(* after the goroutines finished: every read is a function of the state the chosen order leads to *)
+ObsIs(e) ==
+  /\ e.len = NLen
+  /\ \A x \in Addr :
+        /\ e.exists[x] = Exists(x)
+        /\ e.getfound[x] = Exists(x)
+        /\ e.getnode[x] = present[x]
+  /\ \A n \in Node :
+        /\ e.mlen[n] = MembersLen(n)
+        /\ \A y \in Addr : e.others[n][y] = <<MembersLen(n), Others(n, y), B2N(FoundIn(n, y))>>
+  /\ {e.trav[i] : i \in 1..Len(e.trav)} = {z \in Addr : present[z] # None}
+  /\ Len(e.trav) = NLen
+TFinal == /\ Consume /\ Ev.a = "Final"
+          /\ \A g \in Procs : pend[g] = Idle
+          /\ ObsIs(Ev)
+          /\ UNCHANGED <<present, pend, h0, bad>>
+
+(* the search may give the current history up at any point: it jumps to the next  *)
+(* HReset (Trace[h0].n = number of events of the history) and the history is not  *)
+(* noted as linearizable unless another path explains it                          *)
+GiveUp == /\ h0 # 0 /\ ~bad /\ l <= Len(Trace) /\ Ev.a \notin {"HReset", "End"}
+          /\ l' = h0 + Trace[h0].n + 1 /\ bad' = TRUE
+          /\ Fresh /\ UNCHANGED h0
+
+TraceInit == Init /\ l = 1 /\ h0 = 0 /\ bad = FALSE
+TraceNext == \/ TReset \/ TJoin \/ TLeave \/ TEmpty \/ TObs
+             \/ THReset \/ TCall \/ TRet \/ TFinal \/ GiveUp
+             \/ \E g \in Procs : TLin(g)
 TraceSpec == TraceInit /\ [][TraceNext]_tvars
 
-ASSUME TLCSet(1, 0)
-HighWater == TLCSet(1, IF l > TLCGet(1) THEN l ELSE TLCGet(1))
+ASSUME TLCSet(1, 0) /\ TLCSet(2, {}) /\ TLCSet(3, {})
+ASSUME \A k \in 1..Len(Trace) : Trace[k].a = "HReset" => TLCSet(100 + Trace[k].i, 0)
+(* furthest line reached without giving up: of the whole file, and of each concurrent history *)
+HighWater == /\ bad \/ TLCSet(1, IF l > TLCGet(1) THEN l ELSE TLCGet(1))
+             /\ \/ bad \/ h0 = 0
+                \/ LET r == 100 + Trace[h0].i IN TLCSet(r, IF l > TLCGet(r) THEN l ELSE TLCGet(r))
+(* sequential recordings: the whole file must have been consumed *)
 Accepted == \/ TLCGet(1) = Len(Trace) + 1
             \/ PrintT(<<"HW", TLCGet(1), Len(Trace)>>) /\ FALSE
+(* concurrent histories: the verdict is per history *)
+AcceptedC == /\ PrintT(<<"NOTLIN", TLCGet(2) \ TLCGet(3)>>)
+             /\ \A i \in TLCGet(2) \ TLCGet(3) : PrintT(<<"HWT", i, TLCGet(100 + i)>>)
+             /\ PrintT(<<"SEEN", Cardinality(TLCGet(2))>>)
+             /\ PrintT(<<"HW", TLCGet(1), Len(Trace)>>)
 =============================================================================
